@@ -17,8 +17,8 @@ const (
 func init() {
 	Register(&Prop{ID: "C43", Title: "Packet forwarding is all-or-nothing and conserves tokens",
 		Technique: "abstract interpretation (go/ssa): sibling agreement between the forwarded-denomination function and ICS-20's receive decision; argument binding of the intercepted receive (override receiver, emptied memo, success required) and of the forward (sender = override receiver, coin = denomination credited here × packet amount, refund record = the incoming packet's identifiers); exhaustive bank-effect table of the refund on a failed forward with the matching total-escrow adjustment and the upstream acknowledgement; dispatch of acknowledgements, timeouts and retries",
-		LevelText: "Decides the local clauses from which all-or-nothing and conservation follow by induction over hops (given ICS-20's own tables, C30–C32): the denomination forwarded is computed by the same case split as ICS-20's receive (source-prefixed: first hop removed; otherwise receiving hop prepended) with the packet's own identifiers; funds are first received by the underlying application into the override account derived from (destination channel, original sender) with the memo emptied, and nothing is forwarded unless that receive acknowledged success; the forward is a transfer from exactly that override account of exactly amount×that denomination, and the in-flight record stores the incoming packet's destination port/channel, sequence, data and original sender; when a forwarded packet is acknowledged, a success is passed upstream with no bank call, while a failure performs exactly one of three refund cases (escrow→refund escrow; escrow→module, burn, total escrow decreased; mint, module→refund escrow, total escrow increased) selected by the denomination's prefix relation to the forward channel and the refund channel, and then writes the error acknowledgement upstream for the recorded incoming packet; a timeout retries while retries remain (after the underlying application refunded the override account) and otherwise takes the failure path. Does not decide the multi-chain invariant itself.",
-		Note:      "go/types + go/ssa; x/bank trusted", Design: "§5 C43", Run: runC43})
+		LevelText: "Decides the local clauses from which all-or-nothing and conservation follow by induction over hops (given ICS-20's own tables, C30–C32): the denomination forwarded is computed by the same case split as ICS-20's receive (source-prefixed: first hop removed; otherwise receiving hop prepended) with the packet's own identifiers; funds are first received by the underlying application into the override account derived from (destination channel, original sender) with the memo emptied, and nothing is forwarded unless that receive acknowledged success; the forward is a transfer from exactly that override account of exactly amount×that denomination, and the in-flight record stores the incoming packet's destination port/channel, sequence, data and original sender; when a forwarded packet is acknowledged, a success is passed upstream with no bank call, while a failure performs exactly one of three refund cases (escrow→refund escrow; escrow→module, burn, total escrow decreased; mint, module→refund escrow, total escrow increased) selected by the denomination's prefix relation to the forward channel and the refund channel, and then writes the error acknowledgement upstream for the recorded incoming packet; a timeout retries while retries remain (after the underlying application refunded the override account) and otherwise takes the failure path. Does not decide the multi-chain invariant itself. The check re-runs the ICS-20 rules it rests on (C30, C32).",
+		Note:      "go/types + go/ssa; x/bank trusted", Design: "§5 C43", Run: runC43, Deps: []string{"C30", "C32"}})
 }
 
 func runC43(c *Ctx) {
@@ -29,9 +29,7 @@ func runC43(c *Ctx) {
 	}
 	any := func(src string, set term.Set) bool { return e.T.Any(c.pats(which, nil, src)[0], set, nil) }
 	// the transfer keeper is an external contract of the middleware (its own behaviour is C30–C32)
-	e.Seams = func(k string) bool {
-		return interp.DefaultSeams(k) || strings.HasPrefix(k, "apps/packet-forward-middleware/types.TransferKeeper.")
-	}
+	pfmSeams(e)
 	// ---- getDenomForThisChain(port#0, channel#1, cpPort#2, cpChannel#3, denom#4)
 	if rr := c.Run(which, "apps/packet-forward-middleware.getDenomForThisChain"); rr != nil {
 		fk := "apps/packet-forward-middleware.getDenomForThisChain"
@@ -104,6 +102,24 @@ func runC43(c *Ctx) {
 		}
 	}
 	// ---- WriteAcknowledgementForForwardedPacket(k#0, ctx#1, packet#2, transferDetail#3, inFlight#4, ack#5)
+	pfmAckTable(c, e, "C43/ack")
+	runC43Dispatch(c, e)
+}
+
+// pfmSeams: the transfer keeper is an external contract of the middleware.
+func pfmSeams(e *interp.Engine) {
+	e.Seams = func(k string) bool {
+		return interp.DefaultSeams(k) || strings.HasPrefix(k, "apps/packet-forward-middleware/types.TransferKeeper.")
+	}
+}
+
+// pfmAckTable: exhaustive table of the success returns of WriteAcknowledgementForForwardedPacket — no bank
+// call when the forward succeeded; otherwise exactly one of the three refund cases, each with its bank moves and
+// (where a coin enters or leaves a tracked escrow by mint/burn) the matching total-escrow adjustment. Shared by
+// C43 (refund conservation) and C31 (the tracked total follows the middleware's escrow moves).
+func pfmAckTable(c *Ctx, e *interp.Engine, rule string) {
+	const which = "main"
+	any := func(src string, set term.Set) bool { return e.T.Any(c.pats(which, nil, src)[0], set, nil) }
 	if rr := c.Run(which, pfmK+".WriteAcknowledgementForForwardedPacket"); rr != nil {
 		fk := pfmK + ".WriteAcknowledgementForForwardedPacket"
 		den := "field:Denom(field:Token(param#3))"
@@ -135,47 +151,53 @@ func runC43(c *Ctx) {
 			atoms := successAtoms(e, r)
 			ops := bankOps(atoms)
 			up := any(upstream, atoms)
+			anyTot := any("call:iface:apps/packet-forward-middleware/types.TransferKeeper.SetTotalEscrowForDenom(_, _, _)", atoms)
 			has := func(src string) bool { return any(pfmBK+src, atoms) }
 			tot := func(op string) bool {
 				return any("call:iface:apps/packet-forward-middleware/types.TransferKeeper.SetTotalEscrowForDenom(_, param#1, call:sdk.Coin."+op+"(call:iface:apps/packet-forward-middleware/types.TransferKeeper.GetTotalEscrowForDenom(_, param#1, _), "+coin+"))", atoms)
 			}
 			switch {
 			case any("T("+succ+")", atoms):
-				if len(ops) == 0 && up {
+				if len(ops) == 0 && up && !anyTot {
 					seen["success"]++
 				} else {
-					c.bad("C43/ack/success", fk, "", "a successful forward performs a bank call or does not acknowledge upstream")
+					c.bad(rule+"/success",fk, "", "a successful forward performs a bank call or does not acknowledge upstream")
 				}
 			case any("F("+pSrc+")", atoms) && any("F("+pRef+")", atoms):
-				if len(ops) == 1 && has("SendCoins(_, param#1, "+fwdEscrow+", "+refEscrow+", "+coins+")") && up {
+				if len(ops) == 1 && has("SendCoins(_, param#1, "+fwdEscrow+", "+refEscrow+", "+coins+")") && up && !anyTot {
 					seen["escrow-to-refund-escrow"]++
 				} else {
-					c.bad("C43/ack/refund", fk, "", "case 'neither prefix': expected exactly forward escrow → refund escrow of the packet's coin, then the upstream acknowledgement")
+					c.bad(rule+"/refund",fk, "", "case 'neither prefix': expected exactly forward escrow → refund escrow of the packet's coin, then the upstream acknowledgement")
 				}
 			case any("F("+pSrc+")", atoms) && any("T("+pRef+")", atoms):
 				if len(ops) == 2 && has("SendCoinsFromAccountToModule(_, param#1, "+fwdEscrow+", \"transfer\", "+coins+")") && has("BurnCoins(_, param#1, \"transfer\", "+coins+")") && tot("Sub") && up {
 					seen["burn-and-unescrow"]++
 				} else {
-					c.bad("C43/ack/refund", fk, "", "case 'prefixed by the refund channel': expected escrow → module, burn, total escrow decreased by the coin, then the upstream acknowledgement")
+					c.bad(rule+"/refund",fk, "", "case 'prefixed by the refund channel': expected escrow → module, burn, total escrow decreased by the coin, then the upstream acknowledgement")
 				}
 			case any("T("+pSrc+")", atoms):
 				if len(ops) == 2 && has("MintCoins(_, param#1, \"transfer\", "+coins+")") && has("SendCoinsFromModuleToAccount(_, param#1, \"transfer\", "+refEscrow+", "+coins+")") && tot("Add") && up {
 					seen["mint-to-refund-escrow"]++
 				} else {
-					c.bad("C43/ack/refund", fk, "", "case 'prefixed by the forward channel': expected mint, module → refund escrow, total escrow increased by the coin, then the upstream acknowledgement")
+					c.bad(rule+"/refund",fk, "", "case 'prefixed by the forward channel': expected mint, module → refund escrow, total escrow increased by the coin, then the upstream acknowledgement")
 				}
 			default:
-				c.bad("C43/ack/refund", fk, "", "a success return that is none of: forward succeeded, or one of the three refund cases")
+				c.bad(rule+"/refund",fk, "", "a success return that is none of: forward succeeded, or one of the three refund cases")
 			}
 		}
 		for _, k := range []string{"success", "escrow-to-refund-escrow", "burn-and-unescrow", "mint-to-refund-escrow"} {
 			if seen[k] > 0 {
-				c.ok("C43/ack/"+k, fk, "", fmt.Sprintf("%d return class(es)", seen[k]))
+				c.ok(rule+"/"+k,fk, "", fmt.Sprintf("%d return class(es)", seen[k]))
 			} else {
-				c.bad("C43/ack/"+k, fk, "", "no success return realises this case")
+				c.bad(rule+"/"+k, fk, "", "no success return realises this case")
 			}
 		}
 	}
+}
+
+func runC43Dispatch(c *Ctx, e *interp.Engine) {
+	const which = "main"
+	any := func(src string, set term.Set) bool { return e.T.Any(c.pats(which, nil, src)[0], set, nil) }
 	// ---- dispatch
 	// OnAcknowledgementPacket(im#0, ctx#1, channelVersion#2, packet#3, acknowledgement#4, relayer#5)
 	if rr := c.Run(which, pfmM+".OnAcknowledgementPacket"); rr != nil {
